@@ -206,7 +206,7 @@ func ownsZone(c *core.Ctx, callee *types.Func) bool {
 				if call, ok := ast.Unparen(kv.Value).(*ast.CallExpr); ok {
 					if flow.IsPkgFunc(f.Info, call, "strings", "Clone") {
 						good++
-					} else if cf := flow.CalleeFunc(f.Info, call); cf != nil && cf.Name() == "ip6ZoneToString" {
+					} else if cf := flow.CalleeFunc(f.Info, call); cf != nil && nameOf(cf) == "ip6ZoneToString" {
 						good++
 					}
 				}
@@ -233,7 +233,7 @@ func runC17_6(c *core.Ctx) {
 		k := 0
 		for _, call := range callsIn(f.Decl.Body, true) {
 			cf := flow.CalleeFunc(f.Info, call)
-			if cf == nil || v.byObj[cf] == nil || !(cf.Name() == "newStreamConn" || cf.Name() == "newUDPConn") {
+			if cf == nil || v.byObj[cf] == nil || !(nameOf(cf) == "newStreamConn" || nameOf(cf) == "newUDPConn") {
 				continue
 			}
 			sig := cf.Type().(*types.Signature)
@@ -270,12 +270,12 @@ func classifyAddr(c *core.Ctx, v *vocab, f *fn, e ast.Expr, depth int) (bool, st
 		if isModulePkg(cf.Pkg().Path()) && ownsZone(c, cf) {
 			return true, "copied with its own zone string by " + cf.Name()
 		}
-		if cf.Name() == "LocalAddr" || cf.Name() == "RemoteAddr" {
+		if nameOf(cf) == "LocalAddr" || nameOf(cf) == "RemoteAddr" {
 			return false, "the address object of a foreign net.Conn, whose Zone string is shared with package net"
 		}
 		return false, "the result of " + cf.Name() + ", which is not known to give the connection a zone string of its own"
 	case *ast.SelectorExpr:
-		if fl := flow.FieldOf(f.Info, x); fl != nil && fl.Name() == "addr" {
+		if fl := flow.FieldOf(f.Info, x); fl != nil && nameOf(fl) == "addr" {
 			return true, "the listener's shared address (not recycled on a server loop)"
 		}
 	case *ast.Ident:
@@ -641,7 +641,7 @@ func runC17_10(c *core.Ctx) {
 					"the event loop "+exprStr(e)+" is put to work without its listeners map: conn.release() takes len(c.loop.listeners) == 0 to mean a client loop and recycles the local address zone of the loop's connections – on a server that zone belongs to the listener's shared address, so every close hands it to the byte pool")
 			}
 			for _, call := range flow.Calls(n) {
-				if cf := flow.CalleeFunc(f.Info, call); cf != nil && cf.Name() == "register" && len(call.Args) == 1 && v.isLoopPtr(f.Info.TypeOf(call.Args[0])) {
+				if cf := flow.CalleeFunc(f.Info, call); cf != nil && nameOf(cf) == "register" && len(call.Args) == 1 && v.isLoopPtr(f.Info.TypeOf(call.Args[0])) {
 					check(call.Args[0], "registration", call.Pos())
 				}
 			}
@@ -738,7 +738,7 @@ func runC08_11(c *core.Ctx) {
 				}
 				cf := flow.CalleeFunc(f.Info, rc)
 				switch {
-				case cf != nil && cf.Name() == "newUDPConn" && len(rc.Args) >= 4:
+				case cf != nil && nameOf(cf) == "newUDPConn" && len(rc.Args) >= 4:
 					if flow.ObjOf(f.Info, rc.Args[0]) == types.Object(fd) && (peer == nil || flow.ObjOf(f.Info, rc.Args[3]) == peer) {
 						in |= fBound
 					} else {
